@@ -877,7 +877,9 @@ class Variable(CanBehaveLikeAVariable[T]):
             self._update_domain_(self._domain_source_.domain)
 
     def _update_domain_(self, domain):
-        if domain:
+        # a single object given as the domain is a domain of one value also when that object is falsy (e.g. it defines
+        # __len__), only None means that no domain was given.
+        if domain is not None:
             new_domain = None
             if isinstance(domain, HashedIterable):
                 self._domain_ = domain
